@@ -534,6 +534,12 @@ func (ex *Exec) builtin(f *Frame, st *State, x *ssa.Call, bi *ssa.Builtin) Val {
 		default:
 			return w.freshReg(st, x.Type(), "append", OrigCall)
 		}
+		if !s.A.Fresh && s.Len != s.Cap {
+			// Go's append writes into the backing array of its first argument when
+			// that has spare capacity: memory that existed before and that other
+			// slices of the same array can see (frame obligation of the unit)
+			st.writes = append(st.writes[:len(st.writes):len(st.writes)], writeRec{arr: s.A, what: "append (in place when the slice has spare capacity)"})
+		}
 		et := under(x.Type()).(*types.Slice).Elem()
 		nl := bvAdd(s.Len, tLen)
 		nc := w.st.fresh("appcap", bvSort(64))
